@@ -62,15 +62,55 @@ def r1_who_may_call(ctx: Ctx) -> None:
     ctx.floor("set_position_calls", 2)
 
 
+def emit_canonical(pe_node: ast.FunctionDef) -> ast.FunctionDef:
+    """Program.emit with its three working locals renamed to the names the rules speak of, whatever a refactoring calls them:
+    node_bytes (what `node.emit(...)` returned), current_block / current_block_addr (the two arguments of the pending-block
+    write, i.e. of a `write_block(Name, Name)` call that occurs more than once or outside any IncludeIpsNode arm)."""
+    import copy
+
+    fn = copy.deepcopy(pe_node)
+    ren: dict[str, str] = {}
+    for n in walk_no_nested(fn):
+        if isinstance(n, ast.Assign) and len(n.targets) == 1 and isinstance(n.targets[0], ast.Name) and isinstance(n.value, ast.Call) \
+                and isinstance(n.value.func, ast.Attribute) and n.value.func.attr == "emit" and unparse(n.value.func.value) == "node":
+            ren[n.targets[0].id] = "node_bytes"
+    pairs: dict[tuple[str, str], int] = {}
+    for c in calls_in(fn):
+        if isinstance(c.func, ast.Attribute) and c.func.attr == "write_block" and len(c.args) == 2 and all(isinstance(a, ast.Name) for a in c.args):
+            k = (c.args[0].id, c.args[1].id)  # type: ignore[union-attr]
+            pairs[k] = pairs.get(k, 0) + 1
+    top = [c for st in fn.body if not isinstance(st, ast.For) for c in calls_in(st) if isinstance(c.func, ast.Attribute) and c.func.attr == "write_block"
+           and len(c.args) == 2 and all(isinstance(a, ast.Name) for a in c.args)]
+    best = None
+    if top:
+        best = (top[-1].args[0].id, top[-1].args[1].id)  # type: ignore[union-attr]
+    elif pairs:
+        best = max(pairs, key=lambda k: pairs[k])
+    if best and best[0] != best[1]:
+        ren[best[0]] = "current_block"
+        ren[best[1]] = "current_block_addr"
+    clash = {x.id for x in ast.walk(fn) if isinstance(x, ast.Name)} & (set(ren.values()) - set(ren))
+    if clash - set(ren):
+        return fn  # a target name is already used for something else: leave as written
+    for x in ast.walk(fn):
+        if isinstance(x, ast.Name) and x.id in ren:
+            x.id = ren[x.id]
+    return fn
+
+
 def _is_flush(st: ast.stmt) -> bool:
     return (isinstance(st, ast.If) and unparse(st.test) in NONEMPTY_TESTS and not st.orelse and len(st.body) == 1
             and isinstance(st.body[0], ast.Expr) and unparse(st.body[0].value) == "writer.write_block(current_block, current_block_addr)")
 
 
 def r2_accumulate_then_flush(ctx: Ctx) -> None:
-    pe = ctx.repo.func(PROGRAM, "Program.emit")
-    if pe.params()[1:] != ["program", "writer"]:
+    import copy as _copy
+
+    pe0 = ctx.repo.func(PROGRAM, "Program.emit")
+    if pe0.params()[1:] != ["program", "writer"]:
         raise AnalysisError("Program.emit signature changed")
+    pe = _copy.copy(pe0)
+    pe.node = emit_canonical(pe0.node)
     body = pe.node.body
     loops = [s for s in body if isinstance(s, ast.For)]
     if len(loops) != 1:
